@@ -1,5 +1,5 @@
 SPECIFICATION Spec
 CONSTANTS
   MaxArgs = 2
-INVARIANTS SigsWellFormed MachineIsOutcome NeverStuck ZeroFill VariadicSpread DispatchRight StringKindsAgree
+INVARIANTS SigsWellFormed MachineIsOutcome NeverStuck ZeroFill VariadicSpread DispatchRight StringKindsAgree RejectedNeverCalled
 CHECK_DEADLOCK FALSE
